@@ -3,6 +3,9 @@
 // make_heap / pop_heap are modelled at specification level (any arrangement the standard allows), so the result is shown for
 // every conforming heap implementation, and pop_heap's precondition is checked for the comparator it is given.
 #include "vh.h"
+#if !defined(VERIF_MODEL) && defined(SPEC_HEAP)
+#include "spec_heap.h" /* second-chance replay: the real code on a conforming heap that follows the solver's arrangement */
+#endif
 #include "BaseGraph/directed_weighted_graph.hpp"
 #include "BaseGraph/undirected_weighted_graph.hpp"
 #include "BaseGraph/algorithms/paths.hpp"
